@@ -83,7 +83,7 @@ def run_check(pid, tier, seed, args):
     t0 = time.time()
     res = engine.explore(prop, tier, seed,
                          only_policies=args.policies.split(",") if args.policies else None,
-                         only_layers=args.layers.split(",") if args.layers else None,
+                         only_layers=args.layers.split(";") if args.layers else None,
                          budget_s=args.budget)
     if args.dump_fails:
         with open(args.dump_fails, "w") as f:
